@@ -68,8 +68,10 @@ inductive BodySpec
   | none
   /-- `SetBodyBytes` / `SetBodyString` / marshalled value: in-memory, length known -/
   | bytes (b : Bytes)
-  /-- `SetBody(io.Reader)` / `GetBody` func: length unknown -/
+  /-- `SetBody(io.Reader / io.ReadCloser)`: a one-shot reader, length unknown -/
   | reader (b : Bytes)
+  /-- `SetBody(func() (io.ReadCloser, error))`: a caller's `GetBody`, length unknown -/
+  | func (b : Bytes)
 deriving Repr, DecidableEq
 
 structure Api where
@@ -92,6 +94,9 @@ structure HttpReq where
   contentLength : Nat
   hasBody : Bool
   body : Bytes
+  /-- `http.Request.GetBody != nil`: the transport may rewind the body for a transparent replay or
+  a 307/308 redirect. With `fixes/C01-2` a one-shot reader is NOT advertised as rewindable. -/
+  getBody : Bool := false
 deriving Repr
 
 def sHEAD : Bytes := [72, 69, 65, 68]
@@ -115,11 +120,12 @@ def buildRequest (a : Api) : Except Url.Err HttpReq := do
   let hostHdr := hdrFirst h1 sHost
   let host := if hostHdr.isEmpty then u.host else hostHdr
   let h2 := cookies.foldl addCookie h1
-  let (cl, hasBody, bytes) := match body with
-    | .none => (0, false, [])
-    | .bytes b => (b.length, true, b)
-    | .reader b => (0, true, b)
+  let (cl, hasBody, bytes, gb) := match body with
+    | .none => (0, false, [], false)
+    | .bytes b => (b.length, true, b, true)
+    | .reader b => (0, true, b, false)
+    | .func b => (0, true, b, true)
   return { method := a.method, url := u, host := host, header := canonHdr h2,
-           contentLength := cl, hasBody := hasBody, body := bytes }
+           contentLength := cl, hasBody := hasBody, body := bytes, getBody := gb }
 
 end Req.Merge
